@@ -1136,13 +1136,12 @@ func isWildcardLocal(rest string) bool {
 }
 
 func parseLocalAdminSet(rhs string) (*localAdminBitmap, bool) {
-	rhs = strings.TrimSpace(rhs)
 	var locals []uint16
 	switch {
 	case strings.HasPrefix(rhs, "(") && strings.HasSuffix(rhs, ")"):
 		for _, tok := range strings.Split(rhs[1:len(rhs)-1], "|") {
-			n, err := strconv.ParseUint(strings.TrimSpace(tok), 10, 16)
-			if err != nil || !isCanonicalDecimal(strings.TrimSpace(tok)) {
+			n, err := strconv.ParseUint(tok, 10, 16)
+			if err != nil || !isCanonicalDecimal(tok) {
 				return nil, false
 			}
 			locals = append(locals, uint16(n))
